@@ -347,6 +347,20 @@ func (it *Interp) Cond(e ast.Expr) (pos, neg string) {
 			return "(" + lp + " || " + rp + ")", "(" + ln + " && " + rn + ")"
 		case token.EQL, token.NEQ, token.GTR, token.LSS, token.GEQ, token.LEQ:
 			l, r := it.operand(x.X), it.operand(x.Y)
+			// k*len(X) compared with 0 (k > 0) is a test of len(X)
+			if r == "0" {
+				if i := strings.Index(l, "*len("); i > 0 && strings.HasSuffix(l, ")") && strings.Count(l, "(") == strings.Count(l, ")") {
+					allDigits := true
+					for _, c := range l[:i] {
+						if c < '0' || c > '9' {
+							allDigits = false
+						}
+					}
+					if allDigits && !strings.Contains(l, " + ") {
+						l = l[i+1:]
+					}
+				}
+			}
 			isLen := strings.HasPrefix(l, "len(")
 			switch x.Op {
 			case token.NEQ:
